@@ -14,13 +14,18 @@ grep -v '^#' /verif/findings/FIXES.tsv | while IFS=$'\t' read -r key prop check 
   rm -f /verif/replays/$prop-*
   VERIF_REPO=$pw /verif/bin/check $check --tier quick --seconds 10 > /tmp/audit-$name.log 2>&1; rc=$?
   # choose the replay whose description matches best: the first VIOLATION with a replay file
-  rep=$(grep "^VIOLATION property=$prop replay=/" /tmp/audit-$name.log | head -1 | sed 's/.*replay=//')
-  if [ $rc -ne 1 ] || [ -z "$rep" ]; then echo "$name: fix=$fix parent check rc=$rc NO-VIOLATION-ON-PARENT" >> $OUT
+  # the parent may still contain defects repaired by later commits: keep the first replay that this very commit repairs
+  rep=""; r2=9
+  for cand in $(grep "^VIOLATION property=$prop replay=/" /tmp/audit-$name.log | sed 's/.*replay=//' | head -10); do
+    cp "$cand" /tmp/audit-cand.replay
+    VERIF_REPO=$fw /verif/bin/check replay /tmp/audit-cand.replay > /tmp/audit-$name.r2 2>&1; r2=$?
+    if [ $r2 -eq 0 ]; then rep=$cand; break; fi
+  done
+  if [ $rc -ne 1 ] || [ -z "$rep" ]; then echo "$name: fix=$fix parent check rc=$rc NO-REPLAY-REPAIRED-BY-THIS-COMMIT" >> $OUT
   else
     cp "$rep" /verif/findings/$name.replay
     what=$(grep -A1 "^VIOLATION property=$prop replay=$rep" /tmp/audit-$name.log | tail -1 | cut -c3-260)
     VERIF_REPO=$pw /verif/bin/check replay /verif/findings/$name.replay > /tmp/audit-$name.r1 2>&1; r1=$?
-    VERIF_REPO=$fw /verif/bin/check replay /verif/findings/$name.replay > /tmp/audit-$name.r2 2>&1; r2=$?
     echo "$name: fix=$fix property=$prop parent-check-rc=$rc replay-on-parent-rc=$r1 replay-on-fix-rc=$r2 :: $what" >> $OUT
   fi
   git -C /repo worktree remove --force $pw; git -C /repo worktree remove --force $fw
